@@ -45,6 +45,12 @@ func fragmentingFileNamer() fileNamer {
 	return fileNamerFunc(fragmentFileName)
 }
 
+// dirMarker ends the name of every directory level of a fragmented key. It is not
+// part of the base64url alphabet, so a directory can never have the name of a
+// file that holds a value (a short key, or the last fragment of a long key that is
+// a prefix of another one).
+const dirMarker = "="
+
 func fragmentFileName(key string) string {
 	encoded := base64.RawURLEncoding.EncodeToString([]byte(key))
 	if len(encoded) <= 255 { // Common filesystem filename limit
@@ -53,9 +59,14 @@ func fragmentFileName(key string) string {
 
 	// Fragment the encoded string
 	var parts []string
-	for i := 0; i < len(encoded); i += fragmentSize {
-		end := min(i+fragmentSize, len(encoded))
-		parts = append(parts, encoded[i:end])
+	step := fragmentSize - len(dirMarker)
+	for i := 0; i < len(encoded); i += step {
+		end := min(i+step, len(encoded))
+		part := encoded[i:end]
+		if end < len(encoded) {
+			part += dirMarker
+		}
+		parts = append(parts, part)
 	}
 	return filepath.Join(parts...)
 }
@@ -64,17 +75,15 @@ func fragmentingFileNameKeyer() fileNameKeyer {
 	return fileNameKeyerFunc(fragmentedFileNameToKey)
 }
 
-var filepathSeparatorReplacer = strings.NewReplacer(
-	string(filepath.Separator),
-	"",
-)
-
 func fragmentedFileNameToKey(name string) (string, error) {
 	// Check if the name contains path separators (i.e., is fragmented)
 	if strings.ContainsRune(name, filepath.Separator) {
 		// Handle fragmented path
-		base64Str := filepathSeparatorReplacer.Replace(name)
-		decoded, err := base64.RawURLEncoding.DecodeString(base64Str)
+		parts := strings.Split(name, string(filepath.Separator))
+		for i := range len(parts) - 1 {
+			parts[i] = strings.TrimSuffix(parts[i], dirMarker)
+		}
+		decoded, err := base64.RawURLEncoding.DecodeString(strings.Join(parts, ""))
 		if err != nil {
 			return "", err
 		}
